@@ -141,12 +141,18 @@ func getFields(n map[string]ast.Node) (map[string]fields.Field, error) {
 		// structs, func signatures or interfaces used as field types are not.
 		if st, ok := ts.Type.(*ast.StructType); ok && st.Fields != nil {
 			for _, x := range st.Fields.List {
-				if len(x.Names) == 1 && !isPrivate(x) {
-					f, skip := getField(x.Names[0].Name, x, nil)
+				// a declaration may name several fields: A, B int32
+				for _, name := range x.Names {
+					if !ast.IsExported(name.Name) {
+						continue
+					}
+					f, skip := getField(name.Name, x, nil)
 					if !skip {
 						parent.Children = append(parent.Children, f)
 					}
-				} else if len(x.Names) == 0 && !isPrivate(x) {
+				}
+
+				if len(x.Names) == 0 && !isPrivate(x) {
 					f, skip := getField(fmt.Sprintf("%s", x.Type), x, nil)
 					f.Embedded = true
 					if !skip {
